@@ -1,10 +1,11 @@
 (* C16 - The time-function library computes the interpolants it documents.
-   Statements only; proofs in Proofs/TimeFnProofs.v.  gen_* are regenerated from
-   /repo/summer2/functions/util.py and interpolate.py on every run. *)
+   Statements only; proofs in Proofs/TimeFnProofs.v and Proofs/RollingProofs.v.  gen_* are regenerated
+   from /repo/summer2/functions/util.py, interpolate.py and derived.py on every run (the rolling helpers
+   as templates over Model/Rolling.v that are emitted only when the source statements match). *)
 From Coq Require Import QArith ZArith Qcanon List Bool Lia.
 Import ListNotations.
-From S2 Require Import Base.Num Base.Arr Base.ZArr Model.Expr Gen.UtilGen Gen.InterpolateGen
-     Proofs.NumQc Proofs.OrderLemmas Proofs.TimeFnProofs.
+From S2 Require Import Base.Num Base.Arr Base.ZArr Model.Expr Model.Rolling Gen.UtilGen Gen.InterpolateGen Gen.MiscGen
+     Proofs.NumQc Proofs.OrderLemmas Proofs.TimeFnProofs Proofs.RollingProofs.
 
 (* the binary search returns #{i | points[i] <= x} for every sorted array of any length >= 1 and
    every x, and its loop terminates within len(points) iterations (the fuel of the model) *)
@@ -72,6 +73,26 @@ Theorem C16_norm_sigmoid_zero :
   forall (O : NumOps) (T : NumTheory O) (fexp : F O -> F O) (c : F O), gen_norm_sigmoid O fexp c (f0 O) = f0 O.
 Proof. exact norm_sigmoid_0. Qed.
 Print Assumptions C16_norm_sigmoid_zero.
+
+(* the difference helper is pandas.Series.diff(periods): NaN (None) for the first `periods` entries,
+   then x[i] - x[i - periods]; the rolling-window helper is pandas.Series.rolling(window).agg(func):
+   NaN for the first window - 1 entries, then func of the window ending at i - for every series,
+   period / window >= 1 and reduction function *)
+Theorem C16_rolling_diff :
+  forall (O : NumOps) periods (x : list (F O)) i d,
+    (1 <= periods)%nat -> (i < List.length x)%nat ->
+    nth i (gen_rolling_diff O periods x) None
+    = if (i <? periods)%nat then None else Some (fsub O (nth i x d) (nth (i - periods) x d)).
+Proof. exact rolling_diff_spec. Qed.
+Print Assumptions C16_rolling_diff.
+
+Theorem C16_rolling_reduction :
+  forall (O : NumOps) (func : list (F O) -> F O) window (x : list (F O)) i,
+    (1 <= window)%nat -> (i < List.length x)%nat ->
+    nth i (gen_rolling_reduction O func window x) None
+    = if (i <? window - 1)%nat then None else Some (func (firstn window (skipn (i - (window - 1)) x))).
+Proof. exact rolling_reduction_spec. Qed.
+Print Assumptions C16_rolling_reduction.
 
 (* partial: the limit "sigmoidal -> linear as the curvature goes to zero", monotonicity of the real
    sigmoid and sig 1 = 1 need the real exponential; they are sampled by the oracle (DESIGN 6.16) *)
